@@ -28,6 +28,9 @@ CHECKS = {
  "C08": (EX, "DESIGN.md §3 C08", "runtime monitoring: exactly-once checker over snapshot/creation id logs, online monitor of held sync blocks vs running synchronisations, hook-widened race windows, race detector",
          "Concurrent creators under sync blocks and plugins registering meanwhile; for every registered plugin and every container of the runtime's store, snapshot membership plus creation events must be exactly one; the sync callback must never run while a block is held; pending registrations must complete.",
          "The runtime side follows the documented sync-block contract; schedules are those produced by 1-16 CPUs, repetition and the hook yields."),
+ "C09": (EX, "DESIGN.md §3 C09", "runtime monitoring: generated runtime states against a stub plugin (reassembled handler arguments) and a raw protocol peer (per-message chunk log), process-liveness supervision, race detector",
+         "States from empty to 20000 objects in many size distributions (boundary totals around the 4 MiB limit, skewed shapes forcing the minimum chunk) are synchronized by the real adaptation; objects <= 64 KiB must be delivered exactly once in order, larger ones may fail cleanly; panics, partial states, empty-chunk loops and hangs are violations; plus a re-registration history after an aborted split.",
+         "'individually transmissible' is taken as <= 64 KiB for the must-succeed tier."),
  "C10": (EX, "DESIGN.md §3 C10", "runtime monitoring: stream parser + real-time-order monitor over recorded write/read histories of two real Mux endpoints, porcupine FIFO check on short histories, race detector, hook-widened interleavings",
          "Concurrent writers and readers over K logical connections of two real multiplexer endpoints (socketpair and net.Pipe trunks, queue lengths 2-256, payloads from empty to several frames); each delivered stream is parsed for completeness, order, integrity and isolation; harness-side credit enforces 'receiver keeps up'.",
          "Readers pass a buffer of one full frame; connection ids are opened on both ends before traffic."),
